@@ -90,12 +90,16 @@ func Begin(id, level string) *Run {
 	if r.RunDir == "" {
 		r.RunDir, _ = os.MkdirTemp("", "verif-run-")
 	}
-	if b, err := os.ReadFile(filepath.Join(r.Root, "known_findings.json")); err == nil {
+	for _, fn := range []string{filepath.Join(r.Root, "known_findings.json"), filepath.Join(r.Root, "known_findings.d", id+".json")} {
+		b, err := os.ReadFile(fn)
+		if err != nil {
+			continue
+		}
 		var kf struct {
 			Findings []Finding `json:"findings"`
 		}
 		if err := json.Unmarshal(b, &kf); err != nil {
-			fmt.Printf("INCONCLUSIVE property=%s reason=known_findings.json-unreadable:%v\n", id, err)
+			fmt.Printf("INCONCLUSIVE property=%s reason=%s-unreadable:%v\n", id, filepath.Base(fn), err)
 			os.Exit(2)
 		}
 		for _, f := range kf.Findings {
